@@ -270,8 +270,18 @@ def _solve(i):
     return i, res, solver, time.time() - t0, model, reason
 
 
+def _child(i, conn):
+    try:
+        conn.send(_solve(i))
+    except Exception as ex:   # pragma: no cover
+        conn.send((i, "UNKNOWN", "z3", 0.0, {}, f"solver process failed: {type(ex).__name__}: {ex}"))
+    finally:
+        conn.close()
+
+
 def discharge(obligations, timeout_s=10, jobs=None, use_cvc5=True):
-    """solve all obligations; fills .result/.solver/.seconds/.model in place"""
+    """solve all obligations, one forked process each (at most `jobs` at a time); a process that outlives the hard
+    deadline (z3's string solver does not always honour its timeout) is killed and its obligation stays UNKNOWN"""
     global _OBS, _CFG
     _OBS = list(obligations)
     _CFG = {"timeout_s": timeout_s, "cvc5": use_cvc5}
@@ -279,9 +289,42 @@ def discharge(obligations, timeout_s=10, jobs=None, use_cvc5=True):
     if not _OBS:
         return
     ctx = mp.get_context("fork")
-    with ctx.Pool(min(jobs, len(_OBS))) as pool:
-        for i, res, solver, secs, model, reason in pool.imap_unordered(_solve, range(len(_OBS)), chunksize=1):
-            ob = _OBS[i]
-            ob.result, ob.solver, ob.seconds, ob.model = res, solver, round(secs, 3), model
-            if reason:
-                ob.note = (ob.note + " | " if ob.note else "") + reason
+    hard = 6 * 4 + 3 * timeout_s + 20          # all stages of _solve plus slack
+    pending = list(range(len(_OBS)))
+    running = {}                                # index -> (process, conn, started)
+
+    def finish(i, res, solver, secs, model, reason):
+        ob = _OBS[i]
+        ob.result, ob.solver, ob.seconds, ob.model = res, solver, round(secs, 3), model
+        if reason:
+            ob.note = (ob.note + " | " if ob.note else "") + reason
+
+    while pending or running:
+        while pending and len(running) < jobs:
+            i = pending.pop(0)
+            parent, child = ctx.Pipe(duplex=False)
+            pr = ctx.Process(target=_child, args=(i, child))
+            pr.start()
+            child.close()
+            running[i] = (pr, parent, time.time())
+        done = []
+        for i, (pr, conn, t0) in running.items():
+            if conn.poll(0):
+                try:
+                    finish(*conn.recv())
+                except EOFError:
+                    finish(i, "UNKNOWN", "z3", time.time() - t0, {}, "solver process died")
+                pr.join()
+                done.append(i)
+            elif not pr.is_alive():
+                finish(i, "UNKNOWN", "z3", time.time() - t0, {}, "solver process died")
+                done.append(i)
+            elif time.time() - t0 > hard:
+                pr.kill()
+                pr.join()
+                finish(i, "UNKNOWN", "z3", time.time() - t0, {}, f"solver ignored its timeout; killed after {hard:.0f}s")
+                done.append(i)
+        for i in done:
+            running.pop(i)
+        if not done:
+            time.sleep(0.01)
